@@ -4,7 +4,6 @@ CONSTANTS
   MaxSlots = 1
   KindMode = "full"
   Cs = {1, 2, 3, 4, 5}
-  Cs3 = {2, 4}
   ArchG = {1, 2, 6}
   ByOpts = {TRUE, FALSE}
   Emit = TRUE
